@@ -803,6 +803,42 @@ def case_solid(kind, fam, geometry, mat, rep):
     return fn
 
 
+def case_uniform_loads(rep):
+    """Body force, gravity and mass on `uniform=True` regions (one cell's geometry stands for all: the integrated values keep a
+    cell axis of size one and are expanded at assembly), on an axis-aligned and on a rotated / sheared grid of identical cells."""
+    def fn(run):
+        import felupe as fem
+        rng = rng_for(run.seed, "C14", "uniform-loads", rep)
+        attach_hooks(run)
+        try:
+            for fam, Fld in (("hexahedron", fem.Field), ("quad", fem.FieldPlaneStrain), ("quad", fem.Field)):
+                F = gen.FAMILIES[fam]
+                d = F["dim"]
+                n = tuple(int(x) for x in rng.integers(3, 6, d))
+                mesh = F["conv"](F["base"](n))
+                for grid in ("axis-aligned", "affine"):
+                    if grid == "affine":
+                        mesh = mesh.copy(points=mesh.points @ gen.random_affine(rng, d)[0].T)
+                    reg = gen.make_region(fam, mesh, uniform=True)
+                    field = fem.FieldContainer([Fld(reg, dim=d)])
+                    field[0].values[:] = gen.random_displacement(rng, mesh, grad=0.2)
+                    bf = fem.SolidBodyForce(field, values=rng.standard_normal(d), scale=float(rng.uniform(0.5, 2)))
+                    bf.assemble.vector(field)
+                    bf.assemble.vector(field, parallel=True)
+                    with warnings.catch_warnings():
+                        warnings.simplefilter("ignore")
+                        bg = fem.SolidBodyGravity(field, gravity=rng.standard_normal(d), density=float(rng.uniform(0.5, 2)))
+                        bg.assemble.vector(field)
+                    body = fem.SolidBody(fem.NeoHooke(mu=1.0, bulk=float(rng.uniform(2, 10))), field, density=float(rng.uniform(0.5, 3)))
+                    body.assemble.vector(field)
+                    body.assemble.mass()
+                    body.assemble.mass(density=float(rng.uniform(0.5, 3)))
+                    run.units["uniform-region:%s" % grid] += 1
+        finally:
+            attach.detach_all()
+    return fn
+
+
 def case_loads(rep):
     def fn(run):
         import felupe as fem
@@ -1142,6 +1178,7 @@ def cases(tier, seed):
             for mat in ("ThreeFieldVariation", "NearlyIncompressible"):
                 out.append(("solid:%s:%s:%s:%d" % (kind, fam, mat, rep), case_solid(kind, fam, "distorted", mat, rep)))
         out.append(("loads:%d" % rep, case_loads(rep)))
+        out.append(("uniform-loads:%d" % rep, case_uniform_loads(rep)))
         # loads on the whole family x field kind matrix, the geometry class (and with it the length unit) and the call forms rotating by index
         k = rep
         for kind, fams in (("3d", fam3), ("planestrain", fam2), ("axisymmetric", fam2), ("mixed", ["hexahedron", "tetra10"]),
@@ -1168,7 +1205,7 @@ def cases(tier, seed):
 
 SPEC = {
     "required_units": [
-        "balance:force:SolidBody[Field]", "balance:moment:SolidBody[Field]", "balance:force:SolidBody[FieldPlaneStrain]",
+        "uniform-region:axis-aligned", "uniform-region:affine", "balance:force:SolidBody[Field]", "balance:moment:SolidBody[Field]", "balance:force:SolidBody[FieldPlaneStrain]",
         "balance:moment:SolidBody[FieldPlaneStrain]", "balance:force:SolidBody[FieldAxisymmetric]",
         "balance:force:SolidBody[Field,mixed]", "balance:moment:SolidBody[Field,mixed]",
         "balance:force:SolidBodyNearlyIncompressible[Field]", "balance:moment:SolidBodyNearlyIncompressible[Field]",
